@@ -1534,8 +1534,11 @@ if CLI_HANDLE is not None:
         rerrs = run_meta[-1][2]
         names = res.get('names_after')
         rendered = [sorted((tuple(b[0]), ' '.join(b[2])) for b in m['rubber']) for m in res['mols']]
+        if names is None:
+            rerrs.append('the molecule types were not assigned again after the network')
+            names = res.get('names_last')          # the types the writer will use
         if names is None or len(names) != len(res['mols']):
-            rerrs.append('the molecule types were not assigned again after the network (names: %r)' % (names,))
+            rerrs.append('%d molecules, types %r' % (len(res['mols']), names))
             continue
         # same type only if same network; -sep: all types differ
         for x in range(len(names)):
